@@ -20,3 +20,14 @@ CLAIMED["C05"] = (
  "and the user callback only through the closure it posts. Does not decide races in user code, fairness, or that the eventfd write cannot block.",
  COMMON_NOTE,
  "DESIGN.md section 5 C05")
+
+CLAIMED["C01"] = (
+ "typestate counting dataflow for completion callbacks (least-fixpoint interprocedural summaries over SSA, CHA-resolved interface calls), dominator-chain guard analysis of the poll loop and cancel/close paths",
+ "Static necessary-condition analysis. Decides that every callback-taking function of file/conn/AsyncAdapter/listener/packetConn/UDPPeer/ByteBuffer "
+ "discharges its completion exactly once on every terminating CFG path (invoke, delegate, or park on the success edge of a registration with a handler "
+ "installed), that every installed handler does the same for the parked callback and is armed with the operation's own callback, that the poll loop "
+ "filters batch entries by the freshly read interest and removes the interest before dispatch, that Cancel/Close remove interests before calling the "
+ "continuation / closing the descriptor (non-nil cancellation error), and that hang-up/error events are folded into the registered directions. "
+ "Does not decide kernel readiness, peer behaviour, loop liveness or misuse (two reads started on one object).",
+ COMMON_NOTE + "Recursive completions are summarised as a least fixpoint (exactly once provided the recursion ends). Parking through a reactor-method handler counts as one discharge by convention; the handler and arming rules verify the two halves of that convention.",
+ "DESIGN.md section 5 C01")
